@@ -1178,7 +1178,7 @@ fn gen_live_op(r: &mut Rng, k: K, out: &mut Out) -> String {
 pub fn gen(a: &Args) -> String {
     let mut r = Rng::new(a.seed);
     let mut out = Out::default();
-    out.buf.push_str("#rule a case is a sequence of read requests and subscribe requests (priming report) against the real InteractionModel over a harness cluster on two endpoints (16 octet-string attributes, 6 list attributes, 2 events) with generator-chosen value lengths (empty, small, hundreds of bytes, nearly a whole message, computed to end 3..0 bytes before / exactly at / 1..2 bytes past the space left in the current chunk, around the largest value that fits an empty message, values and list elements that fit no message), lists from empty to 60 elements, 0..16 queued events of three priorities and two ids with payloads chosen the same way, wildcard / single-event / invalid event paths, event filters, data-version filters that match or do not match, and a transmit buffer cut to 48..1178 bytes in a third of the requests; non-trivial = at least one request of the case was answered in more than one chunk (the first request of every generated case is built that way); distinct = by operation list\n");
+    out.buf.push_str("#rule a case is a sequence of read requests and subscribe requests (priming report) against the real InteractionModel over a harness cluster on two endpoints (16 octet-string attributes, 6 list attributes, 2 events) with generator-chosen value lengths (empty, small, hundreds of bytes, nearly a whole message, computed to end 3..0 bytes before / exactly at / 1..2 bytes past the space left in the current chunk, around the largest value that fits an empty message, values and list elements that fit no message), lists from empty to 60 elements, 0..16 queued events of three priorities and two ids with payloads chosen the same way, wildcard / single-event / invalid event paths, event filters, data-version filters that match or do not match, a transmit buffer cut to 48..1178 bytes in a third of the requests, and (1 of 7 ops after the first) live-queue requests during whose answer further events are pushed into the real queue between two messages (evicting / promoting events the reader has not reached, new events in range of a read); non-trivial = at least one request of the case was answered in more than one chunk (the first request of every generated case is built that way); distinct = by operation list\n");
     // constants first (one throw-away device), so that the generator can aim at the boundaries
     let k = {
         let runner = e2e::new_runner();
